@@ -15,7 +15,7 @@ var (
 		{{"app", "a"}, {"ver", "2"}, {"x", "y"}}, {{"ver", "1"}, {"app", "a"}}, {{"app", "b"}, {"ver", "1"}},
 	}
 	portPool  = []uint32{80, 8080, 9000, 9090, 8081, 81}
-	queryPort = []uint32{80, 8080, 9000, 7777}
+	queryPort = []uint32{80, 8080, 9000, 9090, 8081, 81, 7777} // portPool and a port nothing mentions
 	realModes = []string{"UNSET", "DISABLE", "PERMISSIVE", "STRICT"}
 	drToks    = []string{"nil", "nil", "nil", "DISABLE", "SIMPLE", "MUTUAL", "ISTIO_MUTUAL"}
 )
@@ -171,6 +171,7 @@ func gen(stream string, seed uint64, n int, outp string) {
 			}
 		}
 		nq := 1 + r.Intn(3)
+		var again [][]string // compose: queries repeated after a spec edit (the version must change with the spec)
 		for i := 0; i < nq; i++ {
 			ns := pickNs()
 			labels := wire.Pick(r, labelPool)
@@ -211,6 +212,7 @@ func gen(stream string, seed uint64, n int, outp string) {
 					svc = wire.Enc(wire.Pick(r, nsPool))
 				}
 				out.Line("q", wire.Enc(ns), encLabels(labels), svc, encPortList(queryPort))
+				again = append(again, []string{"q", wire.Enc(ns), encLabels(labels), svc, encPortList(queryPort)})
 				if r.Chance(1, 2) {
 					// the client: its namespace and the namespaces of the services its sidecar scope imports
 					// (mostly including the endpoint's namespace, as it must to reach the service at all)
@@ -224,9 +226,23 @@ func gen(stream string, seed uint64, n int, outp string) {
 							imported = append(imported, n)
 						}
 					}
-					out.Line("chk", wire.Enc(ns), encLabels(labels), strconv.Itoa(int(wire.Pick(r, queryPort))),
-						wire.B(r.Chance(4, 5)), wire.Pick(r, drToks), wire.Enc(client), wire.EncList(imported), wire.B(r.Chance(1, 8)))
+					l := []string{"chk", wire.Enc(ns), encLabels(labels), strconv.Itoa(int(wire.Pick(r, queryPort))),
+						wire.B(r.Chance(4, 5)), wire.Pick(r, drToks), wire.Enc(client), wire.EncList(imported), wire.B(r.Chance(1, 8))}
+					out.Line(l...)
+					again = append(again, l)
 				}
+			}
+		}
+		if stream == "compose" && len(pols) > 0 && r.Chance(1, 3) {
+			// a spec edit (new mode and port-level settings, ResourceVersion bumped), then the same queries again
+			k := r.Intn(len(pols))
+			var ports []portMode
+			if pols[k].hasSelector() && r.Chance(2, 3) {
+				ports = genPorts(r)
+			}
+			out.Line("pu", strconv.Itoa(k), pickMode(r), encPorts(ports))
+			for _, l := range again {
+				out.Line(l...)
 			}
 		}
 	}
